@@ -17,17 +17,27 @@ positions and value positions apart, the reference semantics evaluates the one
 to a cell and the other to a value.  References are cells of the sheet of the
 formula and of sheets whose names hold special characters ('US$'!A1).
 
+Runs: exhaustive "lit" and "ext" (every literal and reference, few operators),
+"prec" (every operator, parentheses, SUM and IF), "nest" and "code" (every nest
+of ROW, OFFSET, LEN and negation over a cell, a number and a text spelled like
+generated code), "arg" (every nest of SUM, IF and OFFSET), each cross-checked
+against an independent count of the grammar; sampled with -simulate "sim"
+(everything) and "ref" (references and values nested in each other).
+
 Binding: every exported (tokens, sub-expression spans, value per environment)
 is rendered in several spellings (plain; spaces between tokens, references
 with $ markers; function names and TRUE/FALSE in other case; a redundant pair
 of parentheses around a random sub-expression; all of these together),
 compiled with ExcelFormula and
-evaluated through ExcelFormula.build_eval_context, and also placed in a
-workbook and evaluated with ExcelCompiler.evaluate with the referenced cells
-set per the environment.  The result must be the spec value (numbers within
+evaluated through ExcelFormula.build_eval_context (the callbacks read the cells
+of the environment by sheet, row and column; a cell it does not bind is
+blank), and also placed in a workbook that has the sheet of the formula and the
+five other sheets with the cells set per the environment, and evaluated with
+ExcelCompiler.evaluate.  The result must be the spec value (numbers within
 1e-12 relative, text/logical/error exactly).  Values the spec marks
 <<"U", ..>> (32-bit guard, fractional powers, float-sensitive comparisons,
-SUM/IF corner cases that belong to other properties) are skipped and counted.
+SUM/IF/LEN/OFFSET corner cases that belong to other properties) are skipped
+and counted.
 """
 import json
 import logging
@@ -35,6 +45,8 @@ import os
 import random
 import threading
 from collections import Counter
+
+from openpyxl.utils import get_column_letter
 
 from harness import tlc, xl
 from harness.checks.c10 import JVM as JVM10, brief, mismatch, show, text_of, py_variants
@@ -82,8 +94,13 @@ CFG = {
                  Postfix='{}', Calls='CodeCalls', Parens='FALSE',
                  counts=dict(nopnd=3, nref=1, nbin=0, npre=0, npost=0,
                              calls=('ROW(', 'OFFSET(', 'LEN('), parens=False)),
-    'sim': dict(Operands='SimOperands', Binary='AllBinary', Prefix='{"u-", "u+"}',
-                Postfix='{"%"}', Calls='SimCalls', Parens='TRUE', counts=None),
+    # a reference made by a call where a value is wanted
+    'arg': dict(Operands='ArgOperands', Binary='{}', Prefix='{}',
+                Postfix='{}', Calls='ArgCalls', Parens='FALSE',
+                counts=dict(nopnd=2, nref=1, nbin=0, npre=0, npost=0,
+                            calls=('SUM(', 'IF(', 'OFFSET('), parens=False)),
+    'sim': dict(Operands='AllOperands', Binary='AllBinary', Prefix='{"u-", "u+"}',
+                Postfix='{"%"}', Calls='AllCalls', Parens='TRUE', counts=None),
     'ref': dict(Operands='RefOperands', Binary='RefBinary', Prefix='{"u-"}',
                 Postfix='{}', Calls='AllCalls', Parens='TRUE', counts=None),
 }
@@ -153,13 +170,104 @@ def count_formulas(nopnd, nref, nbin, npre, npost, calls, parens, maxlen):
 # ---------------------------------------------------------------------------
 # rendering a token string as formula text
 
-CASED = ('SUM(', 'IF(', 'TRUE', 'FALSE')     # tokens that have a letter case
+CASED = ALL_CALLS + ('TRUE', 'FALSE')        # tokens that have a letter case
+HOME = 'S'                                   # the sheet that holds the formula
+# where the formulas under test stand in the workbook: far from every cell
+# that an OFFSET() of the formulas can reach
+FCOL, FROW = 'XFD', 1000000
+
+
+def sheet_names(tables):
+    """sheet key of the spec -> name of the sheet"""
+    names = {k: ''.join(chr(c) for c in codes) for k, codes in tables['sheets'].items()}
+    names[HOME] = HOME
+    return names
+
+
+def env_cells(tables, e):
+    """(sheet name, row, column) -> python value, for the cells environment e binds"""
+    names = sheet_names(tables)
+    out = {}
+    for tok, val in tables['envs'][e].items():
+        key, row, col = tables['refs'][tok]
+        out[(names[key], row, col)] = py_variants(val)[0]
+    return out
+
+
+def workbook_cells(cells):
+    """the cells of an environment as harness.xl.make_wb takes them: a blank
+    cell of the formula's sheet is left out, a blank cell of another sheet
+    is written (as nothing) so that the sheet exists"""
+    out = {}
+    for (sheet, row, col), x in cells.items():
+        a = f'{get_column_letter(col)}{row}'
+        if sheet != HOME:
+            out[f'{sheet}!{a}'] = x
+        elif x is not None:
+            out[a] = x
+    return out
+
+
+def reader(cells):
+    """evaluate / evaluate_range callbacks for build_eval_context over the
+    cells of one environment.  The compiled code names a cell by its address
+    text (sheet!A1, no sheet: the sheet of the formula); a cell the
+    environment does not bind is blank."""
+    from pycel.excelutil import AddressRange
+
+    def cell(addr):
+        return cells.get((addr.sheet or HOME, addr.row, addr.col_idx))
+
+    def ev(addr):
+        return cell(AddressRange.create(getattr(addr, 'address', addr)))
+
+    def ev_range(addr):
+        rng = AddressRange.create(getattr(addr, 'address', addr))
+        return tuple(tuple(cell(a) for a in row) for row in rng.resolve_range)
+    return ev, ev_range
+
+
+def through_context(ExcelFormula, ctx, ev, f):
+    """route 1.  A formula whose value is a reference (=OFFSET(A1,0,1)) shows
+    the cell referred to: ExcelCompiler does that reading for a cell of a
+    workbook, here the harness does it (a blank cell shows 0)."""
+    from pycel.excelutil import is_address
+    try:
+        got = ctx(ExcelFormula(f))
+        if is_address(got) and not got.is_range:
+            got = ev(got)
+            got = 0 if got is None else got
+    except Exception as exc:    # noqa
+        got = exc
+    return got
+
 
 class Speller:
     def __init__(self, tables, rnd):
         self.lit = tables['lit']
         self.num = tables['num']
+        self.refs = tables['refs']
+        self.sheets = sheet_names(tables)
         self.rnd = rnd
+
+    def reference(self, t, marked):
+        """a reference token as text: A1, 'US$'!A1 (the apostrophes of the
+        name doubled).  marked: with the markers of absolute references ($A$1,
+        $A1, A$1: the same cell) and a name that needs no apostrophes
+        sometimes in apostrophes all the same"""
+        key, row, col = self.refs[t]
+        letter = get_column_letter(col)
+        if marked:
+            cell = self.rnd.choice((f'${letter}${row}', f'${letter}${row}',
+                                    f'${letter}{row}', f'{letter}${row}'))
+        else:
+            cell = f'{letter}{row}'
+        if key == HOME:
+            return cell
+        name = self.sheets[key]
+        if not (name.isalnum() and name.isascii()) or (marked and self.rnd.random() < 0.5):
+            name = "'" + name.replace("'", "''") + "'"
+        return f'{name}!{cell}'
 
     @staticmethod
     def recase(name, fcase):
@@ -173,9 +281,11 @@ class Speller:
             return ''.join(ch.lower() if i % 2 == 0 else ch for i, ch in enumerate(name))
         return name
 
-    def token(self, t, fcase=0):
+    def token(self, t, fcase=0, marked=False):
         if t in ('u-', 'u+'):
             return t[1]
+        if t in self.refs:
+            return self.reference(t, marked)
         if t in CASED:
             return self.recase(t[:-1], fcase) + '(' if t.endswith('(') else self.recase(t, fcase)
         if t[0] == 'T' and t[1:].isdigit():
@@ -185,7 +295,7 @@ class Speller:
         return t
 
     def render(self, toks, spaces=False, fcase=0, wrap=None):
-        parts = [self.token(t, fcase) for t in toks]
+        parts = [self.token(t, fcase, marked=spaces) for t in toks]
         if wrap:
             lo, hi = wrap
             parts = parts[:lo - 1] + ['('] + parts[lo - 1:hi] + [')'] + parts[hi:]
@@ -264,19 +374,16 @@ class Binder:
         self.tables = tables
         self.sp = Speller(tables, rnd)
         self.ExcelFormula = ExcelFormula
-        self.envs = [{k: py_variants(val)[0] for k, val in env.items()}
-                     for env in tables['envs']]
+        self.refs = set(tables['refs'])
+        self.cells = [env_cells(tables, e) for e in range(len(tables['envs']))]
         log = logging.getLogger('pycel_c02')
         log.addHandler(logging.NullHandler())
         log.propagate = False
         log.setLevel(logging.CRITICAL)
         self.ctx = []
-        for env in self.envs:
-            def ev(addr, env=env):
-                a = getattr(addr, 'address', addr)
-                return env[str(a).split('!')[-1]]
-            self.ctx.append(ExcelFormula.build_eval_context(
-                ev, lambda a: None, log))
+        for cells in self.cells:
+            ev, ev_range = reader(cells)
+            self.ctx.append((ExcelFormula.build_eval_context(ev, ev_range, log), ev))
         self.skipped = 0
         self.by_route = Counter()
         self.by_spelling = Counter()
@@ -306,9 +413,8 @@ class Binder:
             else:
                 v.violation(desc, case)
 
-    @staticmethod
-    def uses_refs(vec):
-        return any(t in ('A1', 'B1') for t in vec['toks'])
+    def uses_refs(self, vec):
+        return any(t in self.refs for t in vec['toks'])
 
     def bind(self, vectors, wb_share=1.0, lean_from=99):
         """evaluate every vector in every spelling through both routes
@@ -318,7 +424,7 @@ class Binder:
         for vec in vectors:
             v.sample(dict(formula=self.sp.render(vec['toks']),
                           values=[show(x) for x in vec['vals']]))
-            envs = range(len(self.envs)) if self.uses_refs(vec) else (0,)
+            envs = range(len(self.cells)) if self.uses_refs(vec) else (0,)
             spellings = self.sp.spellings(vec, lean=len(vec['toks']) >= lean_from)
             for e in envs:
                 if vec['vals'][e][0] == 'U':
@@ -326,21 +432,17 @@ class Binder:
                     continue
                 for kind, f in spellings:
                     # route 1: ExcelFormula + build_eval_context
-                    try:
-                        got = self.ctx[e](self.ExcelFormula(f))
-                    except Exception as exc:    # noqa
-                        got = exc
+                    got = through_context(self.ExcelFormula, *self.ctx[e], f)
                     self.judge('eval_context', kind, vec, e, f, got)
                     if wb_share >= 1.0 or self.rnd.random() < wb_share:
                         plan.setdefault(e, []).append((kind, vec, f))
         # route 2: a workbook, ExcelCompiler.evaluate
         for e, items in plan.items():
-            env = self.envs[e]
             for start in range(0, len(items), CHUNK):
                 chunk = items[start:start + CHUNK]
-                cells = {k: x for k, x in env.items() if x is not None}
+                cells = workbook_cells(self.cells[e])
                 for r, (kind, vec, f) in enumerate(chunk, 1):
-                    cells[f'C{r}'] = f
+                    cells[f'{FCOL}{FROW + r}'] = f
                 try:
                     model = xl.compile_wb(cells)
                 except Exception as exc:        # noqa
@@ -350,7 +452,7 @@ class Binder:
                         got = model
                     else:
                         try:
-                            got = model.evaluate(f'S!C{r}')
+                            got = model.evaluate(f'{HOME}!{FCOL}{FROW + r}')
                         except Exception as exc:    # noqa
                             got = exc
                     self.judge('workbook', kind, vec, e, f, got)
@@ -359,7 +461,9 @@ class Binder:
 # ---------------------------------------------------------------------------
 
 STATIC_CFG = {('prec', 5): 'Formula_mc.cfg', ('lit', 3): 'Formula_lit.cfg',
-              ('sim', 9, 6): 'Formula_sim.cfg'}
+              ('ext', 3): 'Formula_ext.cfg', ('nest', 13): 'Formula_nest.cfg',
+              ('code', 13): 'Formula_code.cfg', ('arg', 11): 'Formula_arg.cfg',
+              ('sim', 9, 6): 'Formula_sim.cfg', ('ref', 13, 4): 'Formula_ref.cfg'}
 
 
 def run_exhaustive(v, name, maxlen, invariants, workers=8, timeout=1500):
@@ -392,21 +496,21 @@ def run_exhaustive(v, name, maxlen, invariants, workers=8, timeout=1500):
     return res, tables[0], vectors
 
 
-def run_simulation(v, maxlen, minexport, num, seed, timeout=600):
-    if ('sim', maxlen, minexport) in STATIC_CFG:
-        cfg = os.path.join(tlc.SPEC, STATIC_CFG[('sim', maxlen, minexport)])
+def run_simulation(v, name, maxlen, minexport, num, seed, timeout=600, workers=4):
+    if (name, maxlen, minexport) in STATIC_CFG:
+        cfg = os.path.join(tlc.SPEC, STATIC_CFG[(name, maxlen, minexport)])
     else:
-        cfg = os.path.join(tlc.new_scratch('formula'), 'sim.cfg')
+        cfg = os.path.join(tlc.new_scratch('formula'), f'{name}.cfg')
         with open(cfg, 'w') as f:
-            f.write(cfg_text('sim', maxlen, minexport,
+            f.write(cfg_text(name, maxlen, minexport,
                              ['TypeOK', 'PrintParse', 'RedundantParens', 'ValueTotal',
                               'Export']))
-    res = tlc.run('MC_Formula', cfg, spec_dir=tlc.SPEC, workers=4,
+    res = tlc.run('MC_Formula', cfg, spec_dir=tlc.SPEC, workers=workers,
                   simulate=dict(num=num), depth=maxlen + 2, seed=seed,
                   timeout=timeout, heap='4g', env=JVM)
     if not res.ok:
         raise tlc.MachineryFailure(
-            f'Formula model (simulation, {maxlen} tokens) violates {res.violated}:\n'
+            f'Formula model (simulation {name}, {maxlen} tokens) violates {res.violated}:\n'
             + res.stdout[-2500:])
     seen, vectors = set(), []
     for x in res.json:
@@ -414,7 +518,7 @@ def run_simulation(v, maxlen, minexport, num, seed, timeout=600):
             seen.add(tuple(x['toks']))
             vectors.append(x)
     if not vectors:
-        raise tlc.MachineryFailure('simulation exported no formula')
+        raise tlc.MachineryFailure(f'simulation {name} exported no formula')
     return res, vectors
 
 
@@ -463,7 +567,7 @@ def bind_parallel(v, totals, tables, vectors, seed, wb_share, procs, chunk=1500,
         totals['by_spelling'].update(r['by_spelling'])
 
 
-ACTION_TOKEN = dict(AddPrefix=('u-', 'u+'), AddOpen=('(',), AddCall=('SUM(', 'IF('),
+ACTION_TOKEN = dict(AddPrefix=('u-', 'u+'), AddOpen=('(',), AddCall=ALL_CALLS,
                     AddPostfix=('%',), AddBinary=tuple(ALL_BINARY), AddComma=(',',),
                     AddClose=(')',))
 
@@ -487,12 +591,17 @@ def run(tier, seed):
     rnd = random.Random(seed)
     laws = ['TypeOK', 'PrintParse', 'RedundantParens', 'ValueTotal', 'Export']
     quick = tier == 'quick'
-    n_prec, n_lit = (5, 3) if quick else (7, 4)
-    sim_len, sim_min, sim_num = (9, 6, 15) if quick else (12, 8, 150)
+    # token bounds of the exhaustive runs
+    bound = dict(lit=3, prec=5, ext=3, nest=13, code=13, arg=11) if quick else \
+        dict(lit=4, prec=7, ext=4, nest=17, code=15, arg=13)
+    # the sampled runs: (most tokens, fewest tokens exported, traces)
+    sims = dict(sim=(9, 6, 15), ref=(13, 4, 15)) if quick else \
+        dict(sim=(12, 8, 150), ref=(15, 6, 150))
+    tlc_workers = dict(lit=4, prec=6 if quick else 12, ext=2, nest=2, code=2, arg=2)
     procs = 10 if quick else 14
 
-    # the three TLC runs are independent: run them side by side and bind
-    # each export as soon as it is there
+    # the TLC runs are independent: run them side by side and bind each
+    # export as soon as it is there
     tlc.scratch_dir()
     results, errors = {}, {}
 
@@ -501,13 +610,14 @@ def run(tier, seed):
             results[key] = fn(*args, **kw)
         except BaseException as exc:     # noqa  re-raised by wait()
             errors[key] = exc
-    threads = dict(
-        lit=threading.Thread(target=job, args=('lit', run_exhaustive, v, 'lit', n_lit, laws),
-                             kwargs=dict(workers=4)),
-        prec=threading.Thread(target=job, args=('prec', run_exhaustive, v, 'prec', n_prec, laws),
-                              kwargs=dict(workers=6 if quick else 12)),
-        sim=threading.Thread(target=job, args=('sim', run_simulation, v, sim_len, sim_min,
-                                               sim_num, seed)))
+    threads = {name: threading.Thread(target=job,
+                                      args=(name, run_exhaustive, v, name, n, laws),
+                                      kwargs=dict(workers=tlc_workers[name]))
+               for name, n in bound.items()}
+    for name, (mx, mn, num) in sims.items():
+        threads[name] = threading.Thread(target=job, args=(name, run_simulation, v, name, mx,
+                                                           mn, num, seed),
+                                         kwargs=dict(workers=4 if name == 'sim' else 3))
     for t in threads.values():
         t.start()
 
@@ -522,6 +632,7 @@ def run(tier, seed):
     totals = dict(skipped=0, by_route=Counter(), by_spelling=Counter(), violations_total=0,
                   known_total=0)
     seen = set()
+    formulas = {}
 
     def fresh(vectors):
         out = []
@@ -532,35 +643,48 @@ def run(tier, seed):
                 out.append(x)
         return out
 
-    res_l, tables, vec_l = wait('lit')
-    v.add_tlc(res_l, f'Formula lit <= {n_lit} tokens')
-    vec_l = fresh(vec_l)
-    bind_parallel(v, totals, tables, vec_l, seed, 1.0, procs)
+    tables = None
+    # the small exhaustive sets: every formula through both routes, every spelling
+    for k, name in enumerate(('ext', 'code', 'arg', 'nest', 'lit')):
+        res, tables, vec = wait(name)
+        v.add_tlc(res, f'Formula {name} <= {bound[name]} tokens')
+        vec = fresh(vec)
+        formulas[name] = len(vec)
+        bind_parallel(v, totals, tables, vec, seed + 10 + k, 1.0, procs,
+                      chunk=1500 if name == 'lit' else 150)
 
-    res_s, vec_s = wait('sim')
-    v.add_tlc(res_s, f'Formula simulate <= {sim_len} tokens')
-    vec_s = [x for x in vec_s if len(x['toks']) >= sim_min]
-    rnd.shuffle(vec_s)
-    vec_s = fresh(vec_s[:1000 if quick else 12000])
-    bind_parallel(v, totals, tables, vec_s, seed + 2, 1.0, procs, chunk=250)
+    sampled = {}
+    for k, name in enumerate(sims):
+        mx, mn, num = sims[name]
+        res, vec = wait(name)
+        v.add_tlc(res, f'Formula simulate {name} <= {mx} tokens')
+        vec = [x for x in vec if len(x['toks']) >= mn]
+        rnd.shuffle(vec)
+        vec = fresh(vec[:(1000 if quick else 12000) if name == 'sim' else
+                        (600 if quick else 8000)])
+        sampled[name] = vec
+        formulas['sampled_' + name] = len(vec)
+        bind_parallel(v, totals, tables, vec, seed + 2 + k, 1.0, procs, chunk=250)
 
     res_p, _, vec_p = wait('prec')
-    v.add_tlc(res_p, f'Formula prec <= {n_prec} tokens')
+    v.add_tlc(res_p, f'Formula prec <= {bound["prec"]} tokens')
     taken = actions_taken(vec_p)
     for act in ('AddOperand',) + tuple(ACTION_TOKEN):
         if not taken[act]:
             raise tlc.MachineryFailure(f'vacuous: action {act} never taken (prec run)')
     vec_p = fresh(vec_p)
+    formulas['prec'] = len(vec_p)
     bind_parallel(v, totals, tables, vec_p, seed + 1, 0.35 if quick else 0.1, procs,
                   chunk=1500 if quick else 4000, lean_from=99 if quick else 7)
 
     v.traces = len(seen)
-    lens = Counter(len(x['toks']) for x in vec_s)
+    lens = {name: Counter(len(x['toks']) for x in vec) for name, vec in sampled.items()}
     v.extra.update(
         exhaustive=True,
-        bounds=dict(prec_tokens=n_prec, lit_tokens=n_lit, sampled_tokens=[sim_min, sim_len]),
-        formulas=dict(prec=len(vec_p), lit=len(vec_l), sampled=len(vec_s)),
-        sampled_by_length={str(k): lens[k] for k in sorted(lens)},
+        bounds=dict({k + '_tokens': n for k, n in bound.items()},
+                    **{'sampled_' + k + '_tokens': [mn, mx] for k, (mx, mn, _) in sims.items()}),
+        formulas=formulas,
+        sampled_by_length={name: {str(k): c[k] for k in sorted(c)} for name, c in lens.items()},
         generator_actions_in_exported_formulas=dict(taken),
         skipped_unmodelled=totals['skipped'],
         violations_total=totals['violations_total'],
@@ -568,17 +692,27 @@ def run(tier, seed):
         evaluations_by_route=dict(totals['by_route']),
         evaluations_by_spelling=dict(totals['by_spelling']),
         environments=[{k: show(x) for k, x in env.items()} for env in tables['envs']],
+        sheets={t: f'{sheet_names(tables)[ref[0]]}!{get_column_letter(ref[2])}{ref[1]}'
+                for t, ref in tables['refs'].items()},
         rule='one case = (route, formula text, environment); every exhaustive run is '
              'cross-checked against an independent count of the grammar; the workbook '
-             'route is taken for every formula of the lit and sampled sets and for a '
-             'random share of the prec set; thorough: 7-token formulas of the prec set '
-             'in two spellings (plain, all variations at once) instead of five',
+             'route (the cells of the environment on the sheet of the formula and on the '
+             'five other sheets) is taken for every formula of the lit, ext, nest, code and '
+             'sampled sets and for a random share of the prec set; thorough: 7-token '
+             'formulas of the prec set in two spellings (plain, all variations at once) '
+             'instead of five',
         not_judged=['values the reference marks U: 32-bit guard (e.g. 2^1E2), fractional '
                     'powers of positive numbers, 0^0, comparisons/concatenations/zero '
                     'tests that depend on a non-dyadic intermediate (binary floating '
                     'point), order of texts with characters outside letters/digits, '
                     'SUM of text/logical/blank arguments (C14), IF with a text '
-                    'condition, two-argument IF, IF returning a blank reference',
+                    'condition, two-argument IF, IF returning a blank reference, '
+                    'LEN of a number or a logical, OFFSET by a fraction, a text or a '
+                    'logical, the content of a cell that OFFSET reaches and the '
+                    'environment does not bind',
+                    'eval-context route: a formula whose value is a reference '
+                    '(=OFFSET(A1,0,1)) is read by the harness as ExcelCompiler reads it '
+                    'for a cell of a workbook',
                     'lower-case references (Excel stores them upper-case)',
                     'spaces between two adjacent operands (intersection operator)'])
     v.assumptions = ['TLC evaluates the Formula/ExcelValues definitions correctly',
@@ -591,25 +725,23 @@ def replay(path):
         rec = json.load(f)
     case = rec['case']
     from pycel.excelformula import ExcelFormula
-    res = tlc.run('MC_Formula', 'Formula_lit.cfg', workers=1, timeout=600, env=JVM)
+    # the tables (environments, sheets of the references) are the same in every run
+    res = tlc.run('MC_Formula', 'Formula_ext.cfg', workers=1, timeout=600, env=JVM)
     tables = [x['tables'] for x in res.json if 'tables' in x][0]
-    env = {k: py_variants(val)[0] for k, val in tables['envs'][case['env']].items()}
+    cells = env_cells(tables, case['env'])
     f = case['formula']
     if case['route'] == 'eval_context':
         log = logging.getLogger('pycel_c02')
         log.addHandler(logging.NullHandler())
         log.propagate = False
-        ctx = ExcelFormula.build_eval_context(
-            lambda a: env[str(getattr(a, 'address', a)).split('!')[-1]], lambda a: None, log)
-        try:
-            got = ctx(ExcelFormula(f))
-        except Exception as exc:     # noqa
-            got = exc
+        ev, ev_range = reader(cells)
+        got = through_context(ExcelFormula, ExcelFormula.build_eval_context(ev, ev_range, log),
+                              ev, f)
     else:
-        cells = {k: x for k, x in env.items() if x is not None}
-        cells['C1'] = f
+        wbc = workbook_cells(cells)
+        wbc[f'{FCOL}{FROW}'] = f
         try:
-            got = xl.compile_wb(cells).evaluate('S!C1')
+            got = xl.compile_wb(wbc).evaluate(f'{HOME}!{FCOL}{FROW}')
         except Exception as exc:     # noqa
             got = exc
     why = mismatch(got, case['want'], case.get('scale', 0))
